@@ -1,6 +1,7 @@
 import Zc.Proofs.DecodeLib
 import Zc.Proofs.DecodeRefute
 import Zc.Proofs.DecodeAgreeMsg
+import Zc.Proofs.Utf8RoundTrip
 /-! # C02 — the decoder is total, bounded and faithful on arbitrary datagrams
 
 `parse b` is the model of `DNSIncoming(b)` followed by `.answers()` (`Zc.Wire.DecodeLib`), a total
@@ -62,11 +63,29 @@ theorem C02_within_budget (b : Bytes) : runWithinBudget (parse b) b.length = tru
   have h4 := C02_depth b
   simp [runWithinBudget, withinBudget, h1, h2, h3, h4]
 
-/-- the budget as plain numbers at the datagram limit: fewer than 3.5 million activations -/
+/-- the budget as plain numbers at the datagram limit.  (The label-read bound is the product of the
+three factors — names, activations per name, reads per activation — because the code really can
+redo that work: a record whose rdata name fails is skipped and the next one may walk the same
+chain again.  It is a fixed budget, not a small one.) -/
 theorem C02_work_8966 (b : Bytes) (hb : b.length ≤ 8966) :
-    (parse b).st.names ≤ 26900 ∧ (parse b).st.acts ≤ 3470100 := by
-  obtain ⟨h1, h2, _⟩ := C02_work b
-  omega
+    (parse b).st.names ≤ 26900 ∧ (parse b).st.acts ≤ 3470100 ∧ (parse b).st.reads ≤ 31112916600 := by
+  obtain ⟨h1, h2, h3⟩ := C02_work b
+  refine ⟨by omega, by omega, ?_⟩
+  calc (parse b).st.reads ≤ b.length * (parse b).st.acts := h3
+    _ ≤ 8966 * 3470100 := Nat.mul_le_mul hb (by omega)
+
+/-- **The other loop.**  `_read_bitmap` (the only loop besides the name decoder and the two section loops
+that a datagram can drive) finishes within `len + 1` iterations per call, wherever it starts and whatever
+`end` is: the model's loop carries that many units of fuel and never runs out of them (running out is the
+`.other` pseudo-exception).  It is called at most once per `_read_name` (after the NSEC next-name), so
+a datagram of `n` bytes causes at most `(n + 1) · (3n + 2)` window iterations, each over ≤ 255 bitmap
+bytes.  (No counter for this loop is carried in `Run.st`; on the implementation the wall-clock watchdog
+of the harness is the only guard for it — see notes/agents/C02.md, review finding F5.) -/
+theorem C02_bitmap_loop_bounded (b : Bytes) (end_ : Nat) (st : St) :
+    (readBitmap b end_ (b.length + 1) st).2 ≠ .error .other := by
+  intro h
+  have := (readBitmap_spec b end_ (b.length + 1) st (by omega)).2.1 _ h
+  simp [Benign] at this
 
 /-- **Short names.** Every name on the returned object — question names, owner names, PTR/CNAME
 targets, SRV targets, NSEC next names — is at most 253 characters long (valid or not). -/
@@ -93,12 +112,58 @@ theorem C02_agrees_strict (b : Bytes) (m : WMsg) (h : Strict.decode b = some m)
     ∃ p, (parse b).out = .ok p ∧ agrees p m = true :=
   parse_agrees libCfg_ok libCfg_agree b m h hs hr
 
-/-- the literal sentence of the property, without the `reencodable` proviso.  It holds of the tree
-without the D8 repair and is deliberately given up by that repair (a strict-accepted question whose
-label is 40 × `0xFF` is rejected: `corpus/C02/d8-label-40xff.json`); see notes/agents/C02.md. -/
+/-- the literal sentence of the property, without the `reencodable` proviso -/
 def C02_agrees_strict_literal : Prop :=
   ∀ (b : Bytes) (m : WMsg), Strict.decode b = some m → Strict.supportedOnly m = true →
     ∃ p, (parse b).out = .ok p ∧ agrees p m = true
+
+/-- the D8 witness, evaluated: the strict parser accepts it, it has no unsupported record, and the
+object the decoder builds does not agree with it (it is marked invalid and has no question) -/
+theorem d8_witness_evaluated :
+    (match Strict.decode d8Witness with
+     | some m => Strict.supportedOnly m && !reencodable m &&
+        (match (parse d8Witness).out with
+         | .ok p => !agrees p m && !p.valid && p.questions.isEmpty
+         | _ => false)
+     | none => false) = true := by
+  decide +kernel
+
+/-- **The literal sentence is false of the tree with the D8 repair**: the decoder-level repair of D8
+deliberately rejects a strict-accepted datagram (a label of 40 × `0xFF`, `corpus/C02/d8-label-40xff.json`).
+This is the content of the `reencodable` proviso of `C02_agrees_strict`. -/
+theorem C02_agrees_strict_literal_refuted : ¬ C02_agrees_strict_literal := by
+  intro h
+  have hw := d8_witness_evaluated
+  cases hd : Strict.decode d8Witness with
+  | none => rw [hd] at hw; simp at hw
+  | some m =>
+    rw [hd] at hw
+    simp only [Bool.and_eq_true] at hw
+    obtain ⟨⟨hs, _⟩, hp⟩ := hw
+    obtain ⟨p, hout, hag⟩ := h d8Witness m hd hs
+    rw [hout] at hp
+    simp [hag] at hp
+
+/-- **… and true of the decoder without that test** (`noD8Cfg`: hop bound of D2, no label test): there
+the agreement needs no proviso about labels. -/
+theorem C02_agrees_strict_literal_without_d8 (b : Bytes) (m : WMsg) (h : Strict.decode b = some m)
+    (hs : Strict.supportedOnly m = true) :
+    ∃ p, (parseWith noD8Cfg b).out = .ok p ∧ agrees p m = true :=
+  parse_agrees_noD8 b m h hs
+
+/-- **The 253-character limit, at the boundary, and where it departs from RFC 1035.**  A question name
+of 253 characters (254 octets on the wire) is accepted by the decoder and by `Wire.Strict`; one of 254
+characters — 255 octets on the wire, the longest name RFC 1035 §2.3.4 allows — is rejected by both
+(the object is marked invalid).  The property's first sentence demands exactly this of the decoder;
+`Wire.Strict` follows the library's documented limit here, so `C02_agrees_strict` says nothing about
+that one RFC-legal length (reading recorded in notes/agents/C02.md). -/
+theorem C02_name_limit_boundary :
+    (parse (longNameQuestion 60)).parsed?.map (fun p => (p.valid, p.questions.map (fun q => nameLen q.name))) = some (true, [253])
+    ∧ (Strict.decode (longNameQuestion 60)).isSome = true
+    ∧ (parse (longNameQuestion 61)).parsed?.map (fun p => (p.valid, p.questions.length)) = some (false, 0)
+    ∧ (Strict.decode (longNameQuestion 61)).isSome = false
+    ∧ (longNameQuestion 61).length = 12 + 255 + 4 := by
+  decide +kernel
 
 /-- the hypotheses are satisfiable by a message with content: a PTR question `a.` and a PTR answer
 owned by a pointer to it, whose rdata `b.a.` is compressed as well -/
@@ -110,16 +175,55 @@ example : (Strict.decode [0,0, 0x84,0, 0,1, 0,1, 0,0, 0,0,  1,97,0, 0,12, 0,1,
 
 /-- the name-level core of the agreement, for every state of the name cache that can arise -/
 theorem C02_name_agrees_strict (b : Bytes) (st : St) (n : WName) (e : Nat)
-    (h : Strict.decName b st.off = some (n, e)) (hl : ∀ l ∈ n, Utf8.reencodedLen l ≤ 63)
+    (h : Strict.decName b st.off = some (n, e)) (hl : ∀ l ∈ n, Reencodable l)
     (hc : CacheOK b st.cache) :
     ∃ st', readName libCfg b st = (st', .ok n) ∧ st'.off = e ∧ CacheOK b st'.cache :=
   readName_agrees libCfg_ok libCfg_agree b st n e h hl hc
+
+/-- … and on that message the conclusion is not vacuous either: the decoder's object is the valid one
+with that question and that answer -/
+example : (match Strict.decode [0,0, 0x84,0, 0,1, 0,1, 0,0, 0,0,  1,97,0, 0,12, 0,1,
+                                 0xC0,12, 0,12, 0,1, 0,0,0,120, 0,4, 1,98,0xC0,12],
+                 (parse [0,0, 0x84,0, 0,1, 0,1, 0,0, 0,0,  1,97,0, 0,12, 0,1,
+                         0xC0,12, 0,12, 0,1, 0,0,0,120, 0,4, 1,98,0xC0,12]).out with
+           | some m, .ok p => agrees p m && p.valid && decide (p.records.length = 1)
+           | _, _ => false) = true := by
+  decide +kernel
 
 /-- a compressed name (`a.b` at 12, then `c` + pointer to 14) is decoded by both to `c.b` -/
 example : Strict.decName [0,0,0,0,0,0,0,0,0,0,0,0, 1,97,1,98,0, 1,99,0xC0,14] 17 = some ([[99],[98]], 21)
     ∧ (match (readName libCfg [0,0,0,0,0,0,0,0,0,0,0,0, 1,97,1,98,0, 1,99,0xC0,14] { off := 17 }).2 with
        | .ok n => decide (n = [[99],[98]])
        | .error _ => false) = true := by
+  decide +kernel
+
+/-! ### labels that are text -/
+
+/-- **Names that came from a `str` are re-encodable.**  If every label of every name in a list is text
+(`Utf8.IsText`: the UTF-8 encoding of Unicode scalar values, i.e. what `str.encode('utf-8')` yields for
+a `str` without lone surrogates) and at most 63 bytes long, then every label's decoded form re-encodes
+to at most 63 bytes — by `Utf8.decode_encode` (`decodeReplace (encode cps) = cps`).  This is the shape
+of C01's `TextLabels` and of `reencodable` below. -/
+theorem names_text_of_str (names : List WName)
+    (h : ∀ n ∈ names, ∀ l ∈ n, Utf8.IsText l ∧ l.length ≤ 63) :
+    ∀ n ∈ names, ∀ l ∈ n, Utf8.reencodedLen l ≤ 63 :=
+  fun n hn l hl => Utf8.reencodedLen_le_of_text (h n hn l hl).1 (h n hn l hl).2
+
+theorem C02_text_is_reencodable (m : WMsg) (h : ∀ n ∈ msgNames m, ∀ l ∈ n, Utf8.IsText l ∧ l.length ≤ 63) :
+    reencodable m = true := by
+  simp only [reencodable, List.all_eq_true, decide_eq_true_eq]
+  exact names_text_of_str (msgNames m) h
+
+/-- **Faithfulness for text names, without the `reencodable` proviso**: the D8 test only ever rejects
+labels that are not text. -/
+theorem C02_agrees_strict_text (b : Bytes) (m : WMsg) (h : Strict.decode b = some m)
+    (hs : Strict.supportedOnly m = true) (ht : ∀ n ∈ msgNames m, ∀ l ∈ n, Utf8.IsText l ∧ l.length ≤ 63) :
+    ∃ p, (parse b).out = .ok p ∧ agrees p m = true :=
+  C02_agrees_strict b m h hs (C02_text_is_reencodable m ht)
+
+/-- text labels exist beyond ASCII: `é`, `日本` and an emoji round-trip through the model -/
+example : Utf8.decodeReplace (Utf8.encode [0xE9, 0x65E5, 0x672C, 0x1F600, 0x41]) = [0xE9, 0x65E5, 0x672C, 0x1F600, 0x41]
+    ∧ Utf8.encode [0xE9, 0x65E5, 0x672C, 0x1F600, 0x41] = [0xC3, 0xA9, 0xE6, 0x97, 0xA5, 0xE6, 0x9C, 0xAC, 0xF0, 0x9F, 0x98, 0x80, 0x41] := by
   decide +kernel
 
 end Zc
